@@ -178,11 +178,20 @@ def _selftest(ctx, traces):
     import copy
     muts = []
     for t in traces:
-        kids = [e for e in t["events"] if e["ev"] == "Children"]
-        if len(kids) >= 2:
+        # two pool calls INSIDE ONE RUN (the monitor starts afresh at every Run event): the second re-uses a stream of the first
+        pair, first = None, None
+        for k, e in enumerate(t["events"]):
+            if e["ev"] == "Run":
+                first = None
+            elif e["ev"] == "Children" and e["sids"]:
+                if first is None:
+                    first = k
+                else:
+                    pair = (first, k)
+                    break
+        if pair:
             a = copy.deepcopy(t); a["id"] = "st-kid-%d" % len(muts)
-            ka = [e for e in a["events"] if e["ev"] == "Children"]
-            ka[1]["sids"][0] = ka[0]["sids"][0]
+            a["events"][pair[1]]["sids"][0] = a["events"][pair[0]]["sids"][0]
             muts.append((a, "C10.NoStreamReuseAcrossTasksAndCalls"))
         outs = [e for e in t["events"] if e["ev"] == "Output"]
         if outs:
